@@ -84,6 +84,17 @@ TARGETS = [
     ('cardutil/mciipm.py', 'bitmap_check', {'bitmap': 'bytes'}, ('tuple', 'bool', 'str')),
     ('cardutil/mciipm.py', 'ipm_info', {'input_data': 'infile', 'output': ('dict', 'str', 'infoval')},
      ('dict', 'str', 'infoval')),
+    # the ELEMENT LOOP of _iso8583_to_dict (from `message_pointer = 0` to the end: bitmap walk, running pointer, final length
+    # test), with the element decoder `_iso8583_to_field` and `_get_bitmap_list` as parameters (ANY functions of their types)
+    ('cardutil/iso8583.py', '_iso8583_to_dict', {}, ('dict', 'str', 'pyval'),
+     {'fragment': ('from', 'message_pointer'),
+      'params': [('message', 'bytes'), ('message_data', 'bytes'), ('binary_bitmap', 'bytes'),
+                 ('bit_config', ('dict', 'str', 'cfg')), ('encoding', 'decoder'),
+                 ('return_values', ('dict', 'str', 'pyval'))],
+      'extern': {'_iso8583_to_field': ([('bit', 'int'), ('bit_config', 'cfg'), ('message_data', 'bytes'),
+                                        ('encoding', 'decoder')], ('tuple', ('dict', 'str', 'pyval'), 'int'), True),
+                 '_get_bitmap_list': ([('binary_bitmap', 'bytes')], ('list', 'bool'), False)},
+      'lean_name': '_iso8583_to_dict_loop'}),
     # FRAGMENTS of functions whose other statements call the cipher library: the decimalisation at the end of
     # calculate_pvv (from the first assignment to values_pass1, with the ciphertext `ct` as parameter), and the
     # combination loop at the start of get_zone_master_key (up to the assignment to binary_key, returning p1)
@@ -468,6 +479,13 @@ class Translator:
                 if sym:
                     return f'(decide ({lc} {sym} {rc}))'
             raise Untranslatable(f'comparison {type(op).__name__} on {lt}')
+        if isinstance(node, ast.Call) and isinstance(node.func, ast.Attribute) and node.func.attr == 'get' \
+                and len(node.args) == 1 and not node.keywords:
+            dc, dt = self.expr(node.func.value, env)
+            if is_dict(dt) and dt[2] == 'cfg':
+                # `if config.get(key)`: a configuration entry is a non-empty mapping, so the test is "the key is there"
+                kc, kt = self.expr(node.args[0], env)
+                return f'(Rt.dictHas {dc} {self.coerce(kc, kt, "str")})'
         c, t = self.expr(node, env)
         if t == 'bool':
             return c
@@ -568,6 +586,12 @@ class Translator:
             if fn is None:
                 raise Untranslatable('BitArray.tolist is not translated')
             return self.hoist(f'({fn.name} {env[f.value.id][0]})', ('list', 'bool'))
+        if isinstance(f, ast.Name) and f.id == 'range' and len(node.args) == 2 and not node.keywords:
+            a, at = self.expr(node.args[0], env)
+            b, bt = self.expr(node.args[1], env)
+            if at != 'int' or bt != 'int':
+                raise Untranslatable('range of non-ints')
+            return f'(Rt.range {a} {b})', ('list', 'int')
         if isinstance(f, ast.Name) and f.id == 'enumerate' and len(node.args) == 1 and not node.keywords:
             c, t = self.expr(node.args[0], env)
             if not (isinstance(t, tuple) and t[0] == 'list'):
@@ -869,7 +893,7 @@ class Translator:
             elif isinstance(st, ast.AugAssign) and isinstance(st.target, ast.Name):
                 out.append(st.target.id)
             elif isinstance(st, ast.Expr) and isinstance(st.value, ast.Call) and isinstance(st.value.func, ast.Attribute) \
-                    and st.value.func.attr == 'append' and isinstance(st.value.func.value, ast.Name):
+                    and st.value.func.attr in ('append', 'update') and isinstance(st.value.func.value, ast.Name):
                 out.append(st.value.func.value.id)
             elif isinstance(st, ast.If):
                 for x in st.body + st.orelse:
@@ -924,6 +948,18 @@ class Translator:
             name = s.value.func.value.id
             new = ast.Assign(targets=[ast.Name(name)], value=ast.BinOp(ast.Name(name), ast.Add(), ast.List([s.value.args[0]])))
             return self.stmts([new] + rest, env, ret, loop)
+        if isinstance(s, ast.Expr) and isinstance(s.value, ast.Call) and isinstance(s.value.func, ast.Attribute) \
+                and s.value.func.attr == 'update' and isinstance(s.value.func.value, ast.Name) and len(s.value.args) == 1 \
+                and not s.value.keywords and is_dict(env.get(s.value.func.value.id, (None, None))[1]):
+            # d.update(e): every entry of e set in d, in e's order
+            name = s.value.func.value.id
+
+            def go_upd():
+                ec, et = self.expr(s.value.args[0], env)
+                if et != env[name][1]:
+                    raise Untranslatable('update with a dict of another type')
+                return f'let {name} : {lean_type(et)} := (Rt.dictUpdate {env[name][0]} {ec});\n  ' + self.stmts(rest, env, ret, loop)
+            return self.wrap(go_upd)
         if isinstance(s, ast.Expr) and isinstance(s.value, ast.Call) and isinstance(s.value.func, ast.Name) \
                 and s.value.func.id == '__file_write__':
             def go():
